@@ -369,7 +369,8 @@ func viewsOfTwin(r *ev.Run) {
 									continue
 								}
 								if a, b := lib.Observe(lib.Sub(o, lv)), lib.Observe(ind); a != b {
-									r.Violate(ev.Violation{Kind: "view-of-another-object-changed", Case: map[string]any{"cvss": ver, "decoder": spec.LevelNames[level], "vector": s, "history": []string{order + ", both from the same vector", u.name, "views of " + name}, "view": spec.LevelNames[lv]},
+									r.Violate(ev.Violation{Kind: "view-of-another-object-changed", Case: map[string]any{"cvss": ver, "decoder": spec.LevelNames[level], "vector": s, "history": []string{order + ", both from the same vector", u.name, "views of " + name}, "view": spec.LevelNames[lv],
+										"note": "the histories of this phase run one after the other in one process (queries first, then re-decodes, then assignments), so state kept outside the objects may stem from an earlier history on the same vector"},
 										Observed: a.String(), Expected: b.String() + "  (independent decode of " + ps + ")"})
 								}
 							}
